@@ -12,9 +12,13 @@
 (*             the whole input (relation P_C04),                            *)
 (*   WinInv    the window invariants after every call,                      *)
 (*   CapInv    the capacity equals ReaderCore's abstraction of it (C17).    *)
+(* With WithErrors the source additionally fails once, at any point of the *)
+(* schedule (C05): ErrSurfaces - the call during which it fails returns    *)
+(* the read error (never None, an item or another error), everything       *)
+(* before it is what ReaderCore yields, and the window stays consistent.   *)
 (***************************************************************************)
 EXTENDS ReaderBuf, Schemas, TLC
-CONSTANTS Caps, MaxDoc, WithPauses
+CONSTANTS Caps, MaxDoc, WithPauses, WithErrors
 VARIABLES inp, cfg, r, s, out
 vars == <<inp, cfg, r, s, out>>
 P04 == INSTANCE P_C04
@@ -44,7 +48,9 @@ Init == \E d \in 1..Len(Docs) : \E cap \in Caps : \E c \in Comps(Min(Len(Docs[d]
           /\ inp = Docs[d][1]
           /\ cfg = [Docs[d][2] EXCEPT !.cap0 = cap, !.eofClose = IF WithPauses THEN FALSE ELSE @]
           /\ r = InitReader /\ out = <<>>
-          /\ s = InitBuf(cap, WithP(c, PS, 0))
+          /\ \E k \in (IF WithErrors THEN 0..Len(WithP(c, PS, 0)) ELSE {-1}) :
+               LET sc == WithP(c, PS, 0) IN
+               s = InitBuf(cap, IF k < 0 THEN sc ELSE SubSeq(sc, 1, k) \o <<-2>> \o SubSeq(sc, k + 1, Len(sc)))
 Done == out # <<>> /\ (out[Len(out)].res = "err" \/ (out[Len(out)].res = "none" /\ s.dlv = Len(inp) /\ s.sc = <<>>))
 Call == /\ ~Done /\ Len(out) < 3 * Len(inp) + 12
         /\ LET n == NextCallB(S3, cfg, inp, r, s) IN
@@ -54,8 +60,16 @@ Next == Call
 Spec == Init /\ [][Next]_vars
 
 Whole == ParseAll(S3, cfg, inp)
-Refines == Done => LET why == P04!Rel(Whole, out) IN why = "" \/ (PrintT(<<why, inp, cfg.cap0, s, out, Whole>>) /\ FALSE)
+Refines == (Done /\ ~WithErrors) => LET why == P04!Rel(Whole, out) IN why = "" \/ (PrintT(<<why, inp, cfg.cap0, s, out, Whole>>) /\ FALSE)
 WinInv == s.ipos <= s.len /\ s.len <= s.cap /\ s.cap >= 16 /\ r.pos = CurOff(s) /\ (s.off >= 0 => WinEnd(s) = s.dlv)
 CapInv == s.cap = Capacity(cfg.cap0, r)
 Bounded == Len(out) <= 3 * Len(inp) + 12
+\* C05: the failure of the source surfaces in the very call in which it happens, as the read error
+Failed == \A i \in 1..Len(s.sc) : s.sc[i] # -2
+IsIo(x) == x.res = "err" /\ x.ekind = "io"
+ErrSurfaces == WithErrors =>
+   /\ Failed => (out # <<>> /\ IsIo(out[Len(out)]))
+   /\ \A i \in 1..Len(out) : IsIo(out[i]) => (i = Len(out) /\ Failed)
+   /\ LET pre == SelectSeq(out, LAMBDA x : ~IsIo(x) /\ ~P04!IsPause(x)) IN
+      \A i \in 1..Len(pre) : i <= Len(Whole) /\ P04!Rel(<<Whole[i]>>, <<pre[i]>>) = ""
 =============================================================================
